@@ -162,6 +162,19 @@ pub fn gen_dp_cfg(rng: &mut Rng, nper_min: usize, nper_max: usize, big_images: b
             }
         })
         .collect();
+    let mut periphs: Vec<PeriphCfg> = periphs;
+    for p in periphs.iter_mut() {
+        match rng.usize(14) {
+            0 => p.slave_ident = p.ident.wrapping_add(1), // -> Prm_Fault
+            1 => {
+                // -> Cfg_Fault
+                p.slave_cfg = p.cfg.clone();
+                p.slave_cfg[0] ^= 0x01;
+            }
+            2 => p.present = false, // nobody answers on this address
+            _ => {}
+        }
+    }
     let pmax = max_period(baud, slot_bits);
     DpCfg {
         baud,
@@ -225,6 +238,10 @@ pub struct PerMon {
     pub pi_i_shadow: Vec<u8>,
     pub pi_q_shadow: Vec<u8>,
     pub awaiting_dx: bool,
+    // C17
+    pub ext_shadow: Option<Vec<u8>>,
+    pub diag_checked: u64,
+    pub log_seen: usize,
 }
 
 pub struct DpRun<'a> {
@@ -399,6 +416,8 @@ impl<'a> DpRun<'a> {
 
     /// One event of the world; runs all monitors after a master poll.  Returns false when the run is over.
     pub fn step(&mut self, rep: &mut Report, rng: &mut Rng) -> bool {
+        // logical hang detection: a budget of loop iterations per poll() call
+        profirust::verif::set_fuel(200_000);
         let Some(s) = self.world.step() else { return false };
         match s {
             Stepped::Polled(0) => {
@@ -419,8 +438,112 @@ impl<'a> DpRun<'a> {
                 self.user_action(id, rng);
                 true
             }
+            Stepped::Idle | Stepped::DeviceSent(_) => {
+                // scripted user calls that are tied to a slave transaction
+                for i in 0..self.slaves.len() {
+                    let fire = {
+                        let log = self.slaves[i].log.borrow();
+                        let mut fire = false;
+                        for t in log.iter().skip(self.mon[i].log_seen) {
+                            if t.fault == Fault::UserDiagRequest {
+                                fire = true;
+                            }
+                        }
+                        self.mon[i].log_seen = log.len();
+                        fire
+                    };
+                    if fire {
+                        let h = self.handles[i];
+                        self.dp().get_mut(h).request_diagnostics();
+                    }
+                }
+                true
+            }
             _ => true,
         }
+    }
+
+    /// C17: the diagnostics the master reports equal the bytes of the delivered reply.
+    fn check_diag(&mut self, rep: &mut Report, i: usize, pdu: &[u8]) {
+        let h = self.handles[i];
+        let addr = self.cfg.periphs[i].addr;
+        let buf_len = self.cfg.periphs[i].diag_buf;
+        let ext = &pdu[6..];
+        let want_flags = u16::from_le_bytes([pdu[0], pdu[1]]) & !0x0400;
+        let want_ident = u16::from_be_bytes([pdu[4], pdu[5]]);
+        let want_master = if pdu[3] == 255 { None } else { Some(pdu[3]) };
+        let ext_flag = pdu[0] & 0x08 != 0;
+        let prev = self.mon[i].ext_shadow.clone();
+        let want_ext: Option<Vec<u8>> = if buf_len == 0 {
+            None
+        } else if ext_flag && ext.len() <= buf_len {
+            Some(ext.to_vec())
+        } else {
+            Some(prev.clone().unwrap_or_default())
+        };
+        let r = catch(|| {
+            let p = self.world.stations[0].apps.dp.inner.get_mut(h);
+            let Some(d) = p.last_diagnostics() else { return Err(("C17/no-diagnostics-after-reply".to_string(), "last_diagnostics() is None after an accepted diagnostics reply".to_string())) };
+            if d.flags.bits() != want_flags {
+                return Err(("C17/flags-differ".to_string(), format!("flags {:04x} but the reply bytes say {:04x}", d.flags.bits(), want_flags)));
+            }
+            if d.ident_number != want_ident {
+                return Err(("C17/ident-differs".to_string(), format!("ident {:04x} but the reply says {:04x}", d.ident_number, want_ident)));
+            }
+            if d.master_address != want_master {
+                return Err(("C17/master-address-differs".to_string(), format!("master address {:?} but the reply says {:?}", d.master_address, want_master)));
+            }
+            let raw = d.extended_diagnostics.raw_diag_buffer().map(|b| b.to_vec());
+            if raw != want_ext {
+                let class = if ext_flag && ext.len() > buf_len { "stored-although-too-big-or-lost" } else if !ext_flag { "stored-without-ext-diag-flag" } else { "not-stored" };
+                return Err((format!("C17/ext-diag-storage/{}", class), format!("raw_diag_buffer() = {:?} but expected {:?} (buffer {} bytes, ext diag {} bytes, Ext_Diag flag {})", raw.map(|r| hex(&r)), want_ext.as_ref().map(|r| hex(r)), buf_len, ext.len(), ext_flag)));
+            }
+            if d.extended_diagnostics.is_available() != (buf_len > 0) {
+                return Err(("C17/is-available".to_string(), "is_available() disagrees with the buffer".to_string()));
+            }
+            // block iteration vs the reference parser
+            if let Some(raw) = &raw {
+                let want_blocks = crate::eng_diag::ref_blocks(raw);
+                let base = d.extended_diagnostics.raw_diag_buffer().unwrap().as_ptr() as usize;
+                let mut got = Vec::new();
+                let mut cursor = 0usize;
+                for b in d.extended_diagnostics.iter_diag_blocks() {
+                    let (rb, start, len) = crate::eng_diag::from_lib_block(&b, base);
+                    if let Some(start) = start {
+                        // payload slices lie inside the buffer, after the previous block
+                        if start < cursor || start + len > raw.len() {
+                            return Err(("C17/block-outside-buffer-or-overlapping".to_string(), format!("block at {}..{} (previous blocks end at {}, buffer {} bytes)", start, start + len, cursor, raw.len())));
+                        }
+                        cursor = start + len;
+                    }
+                    got.push(rb);
+                    if got.len() > 300 {
+                        return Err(("C17/iteration-does-not-terminate".to_string(), "more than 300 blocks from a <= 244 byte buffer".to_string()));
+                    }
+                }
+                if got != want_blocks {
+                    return Err((format!("C17/blocks-differ/{}", crate::eng_diag::diff_class(&got, &want_blocks)), format!("buffer {}: blocks {:?} but the ext-diag format says {:?}", hex(raw), got, want_blocks)));
+                }
+            }
+            // Debug formatting walks the blocks too
+            let s = format!("{:?}", d);
+            Ok(s.len())
+        });
+        match r {
+            Err(p) => {
+                let sig = if p.message.starts_with(profirust::verif::FUEL_PANIC) { "C17/iteration-does-not-terminate".to_string() } else { format!("C17/panic/{}", p.class()) };
+                self.viol(rep, "C17", sig, format!("#{}: diagnostics reply {}: {}", addr, hex(pdu), p.message));
+            }
+            Ok(Err((sig, what))) => self.viol(rep, "C17", sig, format!("#{}: diagnostics reply {}: {}", addr, hex(&pdu[..pdu.len().min(40)]), what)),
+            Ok(Ok(_)) => {
+                rep.count("diag_replies_checked");
+                if ext_flag && !ext.is_empty() {
+                    rep.count("diag_replies_with_ext_diag_checked");
+                }
+                self.mon[i].diag_checked += 1;
+            }
+        }
+        self.mon[i].ext_shadow = want_ext;
     }
 
     pub fn user_action(&mut self, id: u32, rng: &mut Rng) {
@@ -482,13 +605,30 @@ impl<'a> DpRun<'a> {
             let kind = self.mon[i].last_req_kind;
             let in_len = self.cfg.periphs[i].in_len;
             // acceptability by the weakest reading of the DP rules
-            let accepted = match (kind, tel) {
-                (Some("slave-diag"), RTel::Data { dsap: Some(62), ssap: Some(60), fc, pdu, .. }) => fc.is_resp() && pdu.len() >= 6,
-                (Some("set-prm"), RTel::Sc) | (Some("chk-cfg"), RTel::Sc) => true,
-                (Some("data-exchange"), RTel::Sc) => in_len == 0,
-                (Some("data-exchange"), RTel::Data { fc: RFc::Resp { status, .. }, pdu, .. }) => matches!(status, 0 | 8 | 10) && pdu.len() == in_len,
-                _ => false,
+            // a data reply must come from the addressed peripheral and be addressed to the master
+            let right_endpoints = match tel {
+                RTel::Data { da, sa, .. } => *sa == *addr && *da == self.cfg.master,
+                _ => true,
             };
+            let accepted = right_endpoints
+                && match (kind, tel) {
+                    (Some("slave-diag"), RTel::Data { dsap: Some(62), ssap: Some(60), fc, pdu, .. }) => fc.is_resp() && pdu.len() >= 6,
+                    (Some("set-prm"), RTel::Sc) | (Some("chk-cfg"), RTel::Sc) => true,
+                    (Some("data-exchange"), RTel::Sc) => in_len == 0,
+                    (Some("data-exchange"), RTel::Data { fc: RFc::Resp { status, .. }, pdu, .. }) => matches!(status, 0 | 8 | 10) && pdu.len() == in_len,
+                    _ => false,
+                };
+            if !right_endpoints {
+                // the FDL promises the application only replies from the addressed station (C15);
+                // for the DP monitors such a reply is simply not acceptable
+                rep.count("replies_delivered_with_foreign_endpoints");
+            }
+            if accepted && kind == Some("slave-diag") {
+                if let RTel::Data { pdu, .. } = tel {
+                    let pdu = pdu.clone();
+                    self.check_diag(rep, i, &pdu);
+                }
+            }
             self.mon[i].reply_since_last_req = Some(accepted || self.mon[i].reply_since_last_req == Some(true));
             self.mon[i].unanswered_run = 0;
             rep.count(if accepted { "replies_acceptable" } else { "replies_rejectable" });
@@ -943,7 +1083,6 @@ pub fn dp_random_case(rep: &mut Report, seed: u64, idx: u64, judge: &'static str
     }
     let bufs = make_bufs(&cfg);
     let mut run = DpRun::build(&cfg, &bufs, rng.next_u64(), judge);
-    profirust::verif::set_fuel(2_000_000);
     let pct = *rng.pick(&[0u64, 5, 15, 40]);
     let hostile = judge != "C07";
     for s in &run.slaves {
@@ -987,7 +1126,7 @@ pub fn dp_random_case(rep: &mut Report, seed: u64, idx: u64, judge: &'static str
         if steps % 64 == 0 {
             joint.insert(run.joint_state_fp());
         }
-        let scripts_done = run.slaves.iter().all(|s| s.script.borrow().is_empty());
+        let scripts_done = run.slaves.iter().all(|s| s.script.borrow().is_empty() || !s.core.borrow().present);
         if scripts_done && fault_phase_done_at.is_none() {
             fault_phase_done_at = Some(run.world.now);
             cycles_at_done = run.cycles;
